@@ -8,6 +8,8 @@ fn main() {
     match (a[0].as_str(), a[1].as_str()) {
         ("c17", "record") => yv::c17::record(&args),
         ("c17", "replay") => yv::c17::replay(&args),
+        ("c14", "record") => yv::c14::record(&args),
+        ("c14", "replay") => yv::c14::replay(&args),
         _ => { eprintln!("unknown command {:?}", &a[..2]); std::process::exit(2); }
     }
 }
